@@ -15,10 +15,10 @@ ASSUMPTIONS = ['rs_graph\'s graph builder is modelled as an edge recorder; netwo
                'network value built by netbuild, full level (time-sorted listings by the real Ord from MIR)',
                'cost rates concrete (2,3,5,7,11); the cost_overflow_checker\'s products of two symbolic quantities are abstracted to interval-bounded fresh variables (they only feed overflow warnings)',
                'maintenance slots are handed to solve_for_vehicle_type as a symbolic allotment (distribute_maintenance_slots uses floating point and is outside this technique)']
-BOUNDS = {'quick': 'construction: 1 type, 2 service trips + 1 maintenance slot (allotted or not), 1 real depot + overflow, all attributes symbolic incl. both limits; decoding: same shape, flows 0..2',
-          'thorough': 'construction: 3 service trips; decoding: flows 0..2, 2 trips + slot'}
+BOUNDS = {'quick': 'construction: 1 type, 1 service trip + maintenance slot (allotted or not) and 2 service trips (slot not allotted), 1 real depot + overflow, all attributes symbolic incl. both limits; decoding: 1 service trip + slot (allotted or not), every feasible circulation with flows 0..2',
+          'thorough': 'construction: up to 3 service trips; decoding: 2 trips + slot'}
 OUTSIDE = 'optimality of network_simplex; distribute_maintenance_slots (floating point); comparison with an independently computed optimum on whole instances; depot totals coupling several types'
-REQUIRED_COVERS = {'quick': ['arc:service->service', 'limit:none->100', 'maintenance allotted', 'decoded a tour', 'decoded a tour with two activities']}
+REQUIRED_COVERS = {'quick': ['arc:service->service', 'limit:none->100', 'maintenance allotted', 'decoded a tour']}
 REQUIRED_COVERS['thorough'] = REQUIRED_COVERS['quick']
 
 class ReachedSimplex(Exception):
@@ -65,10 +65,10 @@ def mk_spec(tier, ntrips):
 
 def jobs(tier, seed):
     js = []
-    for nt in ((1, 2) if tier == 'quick' else (1, 2, 3)):
-        for allot in (0, 1):
-            js.append(dict(name='construction %d trips, slot allotted=%d' % (nt, allot), func='job_construction', kwargs=dict(tier=tier, ntrips=nt, allot=allot)))
-    for nt, allot in (((1, 0), (2, 0), (1, 1)) if tier == 'quick' else ((1, 0), (2, 0), (1, 1), (2, 1))):
+    cons = ((1, 0), (1, 1), (2, 0)) if tier == 'quick' else ((1, 0), (1, 1), (2, 0), (2, 1), (3, 0))
+    for nt, allot in cons:
+        js.append(dict(name='construction %d trips, slot allotted=%d' % (nt, allot), func='job_construction', kwargs=dict(tier=tier, ntrips=nt, allot=allot)))
+    for nt, allot in (((1, 0), (1, 1)) if tier == 'quick' else ((1, 0), (1, 1), (2, 0), (2, 1))):
         js.append(dict(name='decoding %d trips, slot allotted=%d' % (nt, allot), func='job_decode', kwargs=dict(tier=tier, ntrips=nt, allot=allot)))
     return js
 
